@@ -117,13 +117,16 @@ def run(cx):
             'wildcard-matched': rf'^ok\({CEW}\.1\)$',
             'wildcard-qtype-clear': rf'^!RecordTypeSet::contains\(NSEC3::type_set\({CEW}\.1@Some\.0\.1\.nsec3_data\),arg1\)$',
             'wildcard-cname-clear': rf'^!RecordTypeSet::contains\(NSEC3::type_set\({CEW}\.1@Some\.0\.1\.nsec3_data\),RecordType::CNAME\)$'}, expect=1, fn=f)
-        apex = [s for s in tup if 'SOA' in s.term]
+        # RFC 5155 8.5-8.7: a NODATA verdict rests on NSEC3 records - a record matching the query name (8.5), an opt-out cover
+        # (8.6), or a closest-encloser proof with the wildcard (8.7).  The remaining Secure origins are the shortcuts for a closest
+        # encloser that is the zone apex (which exists without proof); they still need the cover of the next closer name and the
+        # matching wildcard record.  A Secure verdict that rests on no record at all is a violation.
+        apex = [s for s in tup if s not in wc_answer and s not in wc_nodata]
         cx.guard('C09.G2', apex, {
             'no-wildcard-answer': r'^!ok\(arg2\)$',
-            'soa-relation': r'^eq:Option\(Option::Some\((Name::base_name\()?arg3\.query\.name\)?\),arg3\.soa\)$'}, expect=2, fn=f)
-        for s in apex:
-            if 'parent name' in s.term:
-                cx.guard('C09.G2', [s], {'next-closer': rf'^ok\({CEW}\.0\.next_closer\)$', 'wildcard-matched': rf'^ok\({CEW}\.1\)$'}, fn=f)
+            'closest-encloser-is-the-apex': r'^eq:Option\(Option::Some\(Name::base_name\(arg3\.query\.name\)\),arg3\.soa\)$',
+            'next-closer': rf'^ok\({CEW}\.0\.next_closer\)$',
+            'wildcard-matched': rf'^ok\({CEW}\.1\)$'}, expect=1, fn=f)
         # the wildcard lookup really is "matching" in the NODATA case and "covering" in the NXDOMAIN case
     w = cx.fn('C09.G2', N + 'Context::closest_encloser_proof_with_wildcard')
     if w:
@@ -131,8 +134,8 @@ def run(cx):
         cx.guard('C09.G2', cov, {'only-when-not-matching': r'^!arg2$'}, expect=1, fn=w)
         mt = cx.calls(w, r'Iterator>::find$')
         cx.guard('C09.G2', mt, {'only-when-matching': r'^arg2$'}, expect=1, fn=w)
-    cx.check('C09.G2', total_secure == 8, N + '*', 'secure-origins', 'secure-origin-count',
-             f'{total_secure} Secure yields in validate_nxdomain_response/validate_nodata_response, 8 reviewed')
+    cx.check('C09.G2', total_secure == 7, N + '*', 'secure-origins', 'secure-origin-count',
+             f'{total_secure} Secure yields in validate_nxdomain_response/validate_nodata_response, 7 reviewed')
     # no other function of the module constructs Proof::Secure
     others = []
     for g in cx.prog.find(r'^hickory_net::dnssec::nsec3::'):
